@@ -172,8 +172,11 @@ def worker():
                             {k: np.asarray(v).tolist() for k, v in x.externals.items()},
                             {k: np.asarray(v).tolist() for k, v in x.external_inds.items()},
                             [{k: np.asarray(v).tolist() for k, v in d.items()} for d in x.trainable_params],
-                            [np.asarray(i).tolist() for i in x.indices_set_by_trainables])
+                            [np.asarray(i).tolist() for i in x.indices_set_by_trainables],
+                            np.asarray(x.ncomp_per_branch).tolist(), np.asarray(x.comb_parents).tolist(),
+                            np.asarray(x.cumsum_ncomp).tolist(), repr([np.asarray(a).tolist() for a in x.xyzr][:3]))
                 d0 = digest(m)
+                frozen0 = pickle.dumps(m)
                 if digest(twin) != d0:
                     res["mismatch"].append({"kind": "copy_differs", "copy": kind, "scenario": sc})
                 kw = {"delta_t": 0.025} if sc == "swc" else {"delta_t": DT}
@@ -200,6 +203,24 @@ def worker():
                     twin.delete_clamps("P_s")
                 if digest(m) != d0:
                     res["mismatch"].append({"kind": "original_changed_by_editing_the_copy", "copy": kind, "scenario": sc})
+                # ... and still simulates exactly as before, with every voltage solver
+                for vs in ("jaxley.stone", "jax.sparse"):
+                    r0 = np.asarray(jx.integrate(pickle.loads(frozen0), params=m.get_parameters(), voltage_solver=vs, **kw))
+                    r1 = np.asarray(jx.integrate(m, params=m.get_parameters(), voltage_solver=vs, **kw))
+                    if not np.array_equal(r0, r1, equal_nan=True):
+                        res["mismatch"].append({"kind": "original_simulates_differently_after_editing_the_copy", "copy": kind,
+                                                "scenario": sc, "voltage_solver": vs})
+                # and the other way round: editing the original leaves the (second) copy alone
+                twin2 = pickle.loads(pickle.dumps(m)) if kind == "pickle" else copy.deepcopy(m)
+                d2 = digest(twin2)
+                m.set("length", 7.7)
+                if sc == "swc":
+                    m.delete_stimuli(); m.delete_trainables(); m.delete_recordings()
+                    m.branch(2).set_ncomp(4)
+                else:
+                    m.delete_recordings()
+                if digest(twin2) != d2:
+                    res["mismatch"].append({"kind": "copy_changed_by_editing_the_original", "copy": kind, "scenario": sc})
             except Exception as e:
                 res["mismatch"].append({"kind": "raised", "copy": kind, "scenario": sc, "err": type(e).__name__ + ": " + str(e)[:200]})
     json.dump(res, open(sys.argv[2], "w"), default=str)
